@@ -213,8 +213,15 @@ fn gen_repeat(rng: &mut Rng, p: &GenParams, pool: &[KeyCode], idx: usize) -> Rep
     }
     let rk = if rng.chance(1, 3) { let k = any_key(rng); if is_modifier(k) { REPEAT_KEYS[idx % REPEAT_KEYS.len()] } else { k } } else { REPEAT_KEYS[idx % REPEAT_KEYS.len()] };
     if !keys.contains(&rk) { keys.push(rk); }
-    // unique parameters per mapping so the request identifies the mapping
-    Repeat::Special { keys, delay_ms: 100 + 10 * idx as i32, interval_ms: 20 + idx as i32 }
+    // unique parameters per mapping so the request identifies the mapping; now and then boundary values
+    // (the loop workload takes absolute values: a negative delay is outside the loop properties)
+    let (d, iv) = match rng.below(12) {
+      0 => (*rng.pick(&[0, 1, 65535, 65536, 70_000, 1 << 24, i32::MAX - 64]), 20 + idx as i32),
+      1 => (100 + 10 * idx as i32, *rng.pick(&[1, 255, 256, 65536, 100_000, i32::MAX - 64])),
+      2 => (*rng.pick(&[-1, -180, i32::MIN + 64]), *rng.pick(&[-30, 30, i32::MIN + 64])),
+      _ => (100 + 10 * idx as i32, 20 + idx as i32)
+    };
+    Repeat::Special { keys, delay_ms: d + idx as i32 % 7, interval_ms: iv + idx as i32 % 5 }
   }
   else { Repeat::Normal }
 }
